@@ -68,7 +68,9 @@ VARIABLES clock, half,   \* wall clock
           hist
 
 vars == <<clock, half, cur, send, slots, chan, stopped, closed, out, acc, drops, nid, hist>>
-View == <<clock, half, cur, send, slots, chan, stopped, closed, out, acc, drops, nid>>
+(* hist is not part of the state, but its length bounds the behaviours (MaxOps): keep it in the view so
+   that what is explored does not depend on which path reaches a state first *)
+View == <<clock, half, cur, send, slots, chan, stopped, closed, out, acc, drops, nid, Len(hist)>>
 
 Shards == 1..NShards
 Ring   == 0..(QLen - 1)
